@@ -14,6 +14,7 @@ MAX_INLINE_DEPTH = 60
 import os as _os
 import sys
 DEBUG_DUMP = _os.environ.get("PYVC_DUMP")
+FRESH_RECHECK = bool(_os.environ.get("PYVC_FRESH"))    # thorough tier: every obligation also by a fresh solver
 
 
 class Env:
@@ -151,6 +152,13 @@ class Run:
         r = self.solver.check()
         self.solver.pop()
         self.solver.set('timeout', self.timeout_ms)
+        if r == z3.unsat and FRESH_RECHECK:
+            fs = z3.Solver()
+            fs.set('timeout', self.feas_timeout_ms)
+            fs.add(self.pc)
+            fs.add(cond)
+            if fs.check() == z3.sat:
+                raise OutOfReach('solver disagreement in a feasibility check (incremental unsat, fresh sat)')
         self.solver_secs += time.time() - t0
         if DEBUG_DUMP and time.time() - t0 > 1.0:
             sys.stderr.write('SLOW feasibility %.1fs %s: %s\n' % (time.time() - t0, r, str(cond)[:300]))
@@ -202,9 +210,21 @@ class Run:
         r = self.solver.check()
         model = None
         detail = ''
+        fresh = None
+        if r != z3.unsat or FRESH_RECHECK:
+            # the incremental solver (push/pop + recursive functions) was seen to answer `sat` on an
+            # unsatisfiable query; every answer other than unsat is re-decided by a fresh solver
+            fresh = z3.Solver()
+            fresh.set('timeout', self.timeout_ms)
+            fresh.add(self.pc)
+            fresh.add(z3.Not(claim))
+            r2 = fresh.check()
+            if r == z3.unsat and r2 == z3.sat:
+                raise OutOfReach('solver disagreement on %s (incremental unsat, fresh sat)' % label)
+            r = r2 if r != z3.unsat else r
         if r == z3.sat:
             try:
-                model = self.solver.model()
+                model = (fresh if fresh is not None else self.solver).model()
             except z3.Z3Exception:
                 model = None
             status = 'failed'
@@ -212,7 +232,7 @@ class Run:
             status = 'proved'
         else:
             status = 'unknown'
-            detail = self.solver.reason_unknown()
+            detail = (fresh if fresh is not None else self.solver).reason_unknown()
             if DEBUG_DUMP:
                 with open(DEBUG_DUMP + '.unknown', 'w') as fh:
                     fh.write(self.solver.to_smt2())
